@@ -178,10 +178,158 @@ fn hostile_dir_case(sink: &mut Sink, r: &mut Rng, pool: &[KeyInfo], forced: Opti
     sink.oracle(res.is_ok(), "in_toto_verify panicked on a link directory with hostile files", &format!("hostile-dir seed-derived; layout {}", hex(text.as_bytes())));
 }
 
+// ------------------------------------------------------------------------------------------------
+// Delegation shapes in the link directory: cycles through symbolic links, chains as deep as the file
+// system allows.  A stack overflow or an endless recursion cannot be caught in-process, so each shape is
+// verified in a child process (`itv C14 --replay shape:<name>`), and the parent looks at how it ended.
+
+const SHAPES: &[&str] = &["self-symlink", "parent-symlink", "two-step-cycle", "absolute-symlink", "deep-8", "deep-60", "deep-max", "dangling-symlink", "symlink-to-file"];
+
+/// Builds the shape under `root` and runs `in_toto_verify`; returns "ok" / "err" (or panics).
+fn shape_verify(shape: &str, root: &std::path::Path) -> &'static str {
+    use in_toto::models::step::Step;
+    use in_toto::models::{LayoutMetadataBuilder, LinkMetadataBuilder};
+    let pool = key_pool(0);
+    let (func, owner) = (&pool[0], &pool[1]);
+    let now = e2e::base_now();
+    let k8 = func.public().key_id().prefix();
+    let step = |name: &str| Step::new(name).add_key(func.public().key_id().clone()).threshold(1);
+    let layout_with = |steps: Vec<Step>| {
+        let mut b = LayoutMetadataBuilder::new().expires(now + chrono::Duration::days(30)).add_key(func.public().clone());
+        for st in steps {
+            b = b.add_step(st);
+        }
+        b.build().unwrap()
+    };
+    let sub_block = |steps: Vec<Step>| serde_json::to_vec(&Metablock::new(MetadataWrapper::Layout(layout_with(steps)), &[&func.key]).unwrap()).unwrap();
+    let real_link = |name: &str| {
+        let l = LinkMetadataBuilder::new().name(name.to_string()).build().unwrap();
+        serde_json::to_vec(&Metablock::new(MetadataWrapper::Link(l), &[&func.key]).unwrap()).unwrap()
+    };
+    let links = root.join("links");
+    std::fs::create_dir_all(&links).unwrap();
+    let file = |n: &str| format!("{}.{}.link", n, k8);
+    let dir = |n: &str| format!("{}.{}", n, k8);
+    let symlink = |target: &std::path::Path, at: &std::path::Path| std::os::unix::fs::symlink(target, at).unwrap();
+    match shape {
+        "self-symlink" | "parent-symlink" | "absolute-symlink" | "dangling-symlink" | "symlink-to-file" => {
+            // the sub-layout delegates the same step to the same functionary; its sub-directory leads back
+            std::fs::write(links.join(file("build")), sub_block(vec![step("build")])).unwrap();
+            match shape {
+                "self-symlink" => symlink(std::path::Path::new("."), &links.join(dir("build"))),
+                "parent-symlink" => symlink(std::path::Path::new("../links"), &links.join(dir("build"))),
+                "absolute-symlink" => symlink(&links.canonicalize().unwrap(), &links.join(dir("build"))),
+                "dangling-symlink" => symlink(std::path::Path::new("nowhere"), &links.join(dir("build"))),
+                _ => symlink(std::path::Path::new(&file("build")), &links.join(dir("build"))),
+            }
+        }
+        "two-step-cycle" => {
+            // build -> (sub-layout with step pack) -> (sub-layout with step build) -> ...
+            std::fs::write(links.join(file("build")), sub_block(vec![step("pack")])).unwrap();
+            let d1 = links.join(dir("build"));
+            std::fs::create_dir_all(&d1).unwrap();
+            std::fs::write(d1.join(file("pack")), sub_block(vec![step("build")])).unwrap();
+            symlink(std::path::Path::new(".."), &d1.join(dir("pack")));
+        }
+        _ => {
+            // a genuine chain of delegations, as deep as asked (or as deep as PATH_MAX allows), ending in a link
+            let depth: usize = if shape == "deep-max" { 10_000 } else { shape[5..].parse().unwrap() };
+            let mut cur = links.clone();
+            let mut made = 0;
+            for _ in 0..depth {
+                let next = cur.join(dir("build"));
+                if next.as_os_str().len() > 3900 || std::fs::create_dir(&next).is_err() {
+                    break;
+                }
+                std::fs::write(cur.join(file("build")), sub_block(vec![step("build")])).unwrap();
+                cur = next;
+                made += 1;
+            }
+            let _ = made;
+            std::fs::write(cur.join(file("build")), real_link("build")).unwrap();
+        }
+    }
+    let top = Metablock::new(MetadataWrapper::Layout(layout_with(vec![step("build")])), &[&owner.key]).unwrap();
+    let mut keys = std::collections::HashMap::new();
+    keys.insert(owner.public().key_id().clone(), owner.public().clone());
+    hooks::set_now(Some(now));
+    let r = in_toto::verifylib::in_toto_verify(&top, keys, links.to_str().unwrap(), None);
+    hooks::set_now(None);
+    if r.is_ok() { "ok" } else { "err" }
+}
+
+/// child side: exit status 0 = returned Ok, 1 = returned Err, 3 = panicked (caught)
+pub fn shape_child(shape: &str) -> ! {
+    let tmp = tempfile::Builder::new().prefix("itv-shape-").tempdir().unwrap();
+    let root = tmp.path().to_path_buf();
+    let sh = shape.to_string();
+    let res = guarded(std::panic::AssertUnwindSafe(move || shape_verify(&sh, &root)));
+    drop(tmp);
+    std::process::exit(match res { Ok("ok") => 0, Ok(_) => 1, Err(()) => 3 })
+}
+
+fn shape_case(sink: &mut Sink, shape: &str) {
+    use std::io::Read;
+    let exe = std::env::current_exe().unwrap();
+    let mut child = std::process::Command::new(exe)
+        .args(["C14", "--replay", &format!("shape:{}", shape)])
+        .stdout(std::process::Stdio::null())
+        .stderr(std::process::Stdio::piped())
+        .spawn()
+        .unwrap();
+    let t0 = std::time::Instant::now();
+    let status = loop {
+        match child.try_wait().unwrap() {
+            Some(st) => break Some(st),
+            None if t0.elapsed().as_secs() > 60 => {
+                let _ = child.kill();
+                let _ = child.wait();
+                break None;
+            }
+            None => std::thread::sleep(std::time::Duration::from_millis(20)),
+        }
+    };
+    let mut err = String::new();
+    if let Some(mut e) = child.stderr.take() {
+        let _ = e.read_to_string(&mut err);
+    }
+    let replay = format!("delegation shape `{}` in the link directory (re-run: itv C14 --replay shape:{})", shape, shape);
+    let how = match status {
+        None => "did not return within 60 s".to_string(),
+        Some(st) => match st.code() {
+            Some(0) => "ok".into(),
+            Some(1) => "err".into(),
+            Some(3) => "panicked".into(),
+            Some(c) => format!("exited with {}", c),
+            None => {
+                use std::os::unix::process::ExitStatusExt;
+                format!("was killed by signal {}{}", st.signal().unwrap_or(0), if err.contains("overflowed its stack") { " (stack overflow)" } else { "" })
+            }
+        },
+    };
+    sink.stat(&format!("delegation-shape/{}/{}", shape, how.split(' ').next().unwrap()));
+    sink.oracle(how == "ok" || how == "err", &format!("in_toto_verify {} on a link directory whose delegation structure is unusual", how), &replay);
+    // a genuine chain verifies, a cycle cannot
+    if shape.starts_with("deep-") {
+        sink.oracle(how != "err", "a genuine chain of delegations ending in a valid link is rejected", &replay);
+    } else {
+        sink.oracle(how != "ok", "a delegation that never reaches a link is accepted", &replay);
+    }
+}
+
 pub fn run(cfg: &Cfg) {
+    if let Some(p) = &cfg.replay {
+        if let Some(shape) = p.to_str().and_then(|s| s.strip_prefix("shape:")) {
+            shape_child(shape);
+        }
+    }
     let mut sink = Sink::new(&cfg.out);
     let mut r = Rng::new(cfg.seed);
     let pool = key_pool(1);
+    // ---- delegation shapes (each in a child process)
+    for shape in SHAPES {
+        shape_case(&mut sink, shape);
+    }
     // ---- the repo's own former panic sites
     let ascii = "0123456789abcdef".repeat(4);
     prefix_case(&mut sink, &ascii);
